@@ -900,6 +900,9 @@ func (cx *Ctx) reviewedDivisor(s abortSite) string {
 		if depth > 8 || v == nil {
 			return ""
 		}
+		if iv := cx.initOnceValue(v); iv != nil {
+			v = iv // a package-level value computed once at start-up and never assigned again
+		}
 		switch x := v.(type) {
 		case *ssa.Parameter:
 			fn := x.Parent()
@@ -2385,4 +2388,67 @@ func (cx *Ctx) recordListIndexRule(r *Report, rule string) int {
 	}
 	r.ok(rule, "scan", "", fmt.Sprintf("%d constant indexes into lists held in record fields on block-handler / callback paths, each under a length test or reviewed", n))
 	return n
+}
+
+// initOnceValue: for a load of a package-level variable of irismod that is assigned exactly
+// once - by its initialiser in the package's init - and whose address is never taken, the
+// value it was initialised with (an instruction of the init function); nil otherwise.
+func (cx *Ctx) initOnceValue(v ssa.Value) ssa.Value {
+	u, ok := v.(*ssa.UnOp)
+	if !ok || u.Op != token.MUL {
+		return nil
+	}
+	g, ok := u.X.(*ssa.Global)
+	if !ok || g.Pkg == nil || g.Pkg.Pkg == nil || !strings.HasPrefix(g.Pkg.Pkg.Path(), modPrefix) {
+		return nil
+	}
+	if cx.initOnce == nil {
+		cx.initOnce = map[*ssa.Global]ssa.Value{}
+		bad := map[*ssa.Global]bool{}
+		scan := func(f *ssa.Function, isInit bool) {
+			for _, b := range f.Blocks {
+				for _, ins := range b.Instrs {
+					if st, ok := ins.(*ssa.Store); ok {
+						if gg, ok := st.Addr.(*ssa.Global); ok {
+							if _, dup := cx.initOnce[gg]; dup || !isInit {
+								bad[gg] = true
+							}
+							cx.initOnce[gg] = st.Val
+							continue
+						}
+					}
+					for _, op := range ins.Operands(nil) {
+						if op == nil || *op == nil {
+							continue
+						}
+						gg, ok := (*op).(*ssa.Global)
+						if !ok {
+							continue
+						}
+						if ld, isLoad := ins.(*ssa.UnOp); isLoad && ld.Op == token.MUL {
+							continue
+						}
+						bad[gg] = true // address handed on
+					}
+				}
+			}
+		}
+		for _, pk := range cx.P.SSAPkgs {
+			if pk == nil {
+				continue
+			}
+			if in := pk.Func("init"); in != nil {
+				scan(in, true)
+			}
+		}
+		for _, f := range cx.P.AllFuncs {
+			if f.Name() != "init" || f.Synthetic == "" {
+				scan(f, false)
+			}
+		}
+		for gg := range bad {
+			delete(cx.initOnce, gg)
+		}
+	}
+	return cx.initOnce[g]
 }
